@@ -97,7 +97,9 @@ def build_replay():
             raise BuildError("replay build failed:\n" + p.stdout[-4000:])
         src = os.path.join(tdir, "debug", "mamba-verif-replay")
         dst = os.path.join(scratch(), "replay-bin")
-        shutil.copy2(src, dst)
+        tmp = dst + ".new"
+        shutil.copy2(src, tmp)
+        os.replace(tmp, dst)        # a server started from the previous copy may still be running (ETXTBSY on overwrite)
         log(f"[build] native replay binary built from {REPO} in {time.time()-t0:.1f}s")
         return dst
     finally:
